@@ -25,10 +25,14 @@ package ja3
 //@   ensures [C01:ja3-string] result == ja3str(hello)
 //@   loop 1 invariant lastElem == len(hello.CipherSuites) - 1 && -1 <= rangeindex && rangeindex < lastElem
 //@   loop 1 invariant [C01:ciphers] buffer == dec(hello.HandshakeVersion) ++ "," ++ dashIf(joinK(hello.CipherSuites, rangeindex+1))
+//@   cut afterCiphers after TrimSuffix#1 invariant [C01:ciphers-done] buffer == dec(hello.HandshakeVersion) ++ "," ++ joinK(hello.CipherSuites, len(hello.CipherSuites))
 //@   loop 2 invariant lastElem == len(hello.AllExtensions) - 1 && -1 <= rangeindex && rangeindex < lastElem
 //@   loop 2 invariant [C01:extensions] buffer == dec(hello.HandshakeVersion) ++ "," ++ joinK(hello.CipherSuites, len(hello.CipherSuites)) ++ "," ++ dashIf(joinK(hello.AllExtensions, rangeindex+1))
+//@   cut afterExtensions after TrimSuffix#2 invariant [C01:extensions-done] buffer == dec(hello.HandshakeVersion) ++ "," ++ joinK(hello.CipherSuites, len(hello.CipherSuites)) ++ "," ++ joinK(hello.AllExtensions, len(hello.AllExtensions))
 //@   loop 3 invariant lastElem == len(hello.SupportedGroups) - 1 && -1 <= rangeindex && rangeindex < lastElem
 //@   loop 3 invariant [C01:groups] buffer == dec(hello.HandshakeVersion) ++ "," ++ joinK(hello.CipherSuites, len(hello.CipherSuites)) ++ "," ++ joinK(hello.AllExtensions, len(hello.AllExtensions)) ++ "," ++ dashIf(joinK(hello.SupportedGroups, rangeindex+1))
+//@   cut afterGroups after TrimSuffix#3 invariant [C01:groups-done] buffer == dec(hello.HandshakeVersion) ++ "," ++ joinK(hello.CipherSuites, len(hello.CipherSuites)) ++ "," ++ joinK(hello.AllExtensions, len(hello.AllExtensions)) ++ "," ++ joinK(hello.SupportedGroups, len(hello.SupportedGroups))
+//@   loop 4 invariant rangeindex >= 0 ==> len(joinA(hello.SupportedPoints, rangeindex+1)) > 0
 //@   loop 4 invariant lastElem == len(hello.SupportedPoints) - 1 && -1 <= rangeindex && rangeindex < lastElem
 //@   loop 4 invariant [C01:points] buffer == dec(hello.HandshakeVersion) ++ "," ++ joinK(hello.CipherSuites, len(hello.CipherSuites)) ++ "," ++ joinK(hello.AllExtensions, len(hello.AllExtensions)) ++ "," ++ joinK(hello.SupportedGroups, len(hello.SupportedGroups)) ++ "," ++ dashIf(joinA(hello.SupportedPoints, rangeindex+1))
 
